@@ -51,6 +51,22 @@ def main(tier, rep):
                              ("call", "get_illegal", None, {("close", 1): ("pre", ik) if pre else ik}, "all"), ("tick", 1)]
                     steps += [("call", f[0], f[1], None, "all") for f in L.FOLLOWUPS[n % len(L.FOLLOWUPS)] if L.has_op(kind, f[0])]
                     progs.append((cfg, steps))
+    # two interruptions in one history: the first inside the close() that ends a quit (or an error path), the second in the middle
+    # of a later reply -- whatever the first one left behind must not disarm the clean-up of the second
+    for kind in L.KINDS:
+        for ik in L.INTERRUPT_KINDS:
+            for pre in (False, True):
+                for second_op, second_plan in (("get", {("recv", 1): ik}), ("incr", {("recv", 1): ik}), ("set", {("sendall", 1): ("half", ik)})):
+                    n += 1
+                    if tier == "quick" and n % 2:
+                        continue
+                    cfg = L.Cfg(kind=kind, max_pool=2 if "pooled" in kind else None, default_noreply=False)
+                    steps = [("call", "set", False, None, "all"),
+                             ("call", "quit", None, {("close", 1): ("pre", ik) if pre else ik}, "all"), ("tick", 1),
+                             ("call", "set", False, None, "all"),
+                             ("call", second_op, False if second_op == "set" else None, second_plan, "all"), ("tick", 1),
+                             ("call", "get", None, None, "all"), ("call", "add", False, None, "all")]
+                    progs.append((cfg, steps))
     traces = [L.run_program(cfg, steps) for cfg, steps in progs]
     L.validate(rep, traces, relevant, PROP)
     from drivers import connmodel
